@@ -415,3 +415,6 @@ CORPUS += [
     V("C17", "baseline-policy-shallow-copy", _BLF, "        self.policy = copy.deepcopy(policy).to(device)", "        self.policy = copy.copy(policy).to(device)", "C17.i"),
     V("C17", "baseline-values-squeezed", _BLF, "            .detach()\n            .cpu()\n        )\n        return dataset.add_key", "            .detach()\n            .cpu()\n            .squeeze()\n        )\n        return dataset.add_key", "C17.j"),
 ]
+CORPUS += [
+    V("C12", "log-likelihood-renormalised-before-the-gather", _DEC, "    if actions is not None and logprobs.dim() == 3:\n        logprobs = logprobs.gather", "    if actions is not None and logprobs.dim() == 3:\n        logprobs = logprobs.log_softmax(dim=-1)\n        logprobs = logprobs.gather", "C12.h"),
+]
